@@ -118,7 +118,6 @@ func cprng(a *hx.Args, rng *mrand.Rand, res *hx.Result) {
 // ---------------------------------------------------------------- free-running stress (meant to be built with -race)
 
 func stress(a *hx.Args, rng *mrand.Rand, res *hx.Result) {
-	kps := hx.Keys1024()
 	rounds, maxG := 3, 16
 	if a.Tier == "thorough" {
 		rounds, maxG = 8, 64
@@ -127,7 +126,7 @@ func stress(a *hx.Args, rng *mrand.Rand, res *hx.Result) {
 	for round := 0; round < rounds; round++ {
 		for _, G := range []int{2, 4, maxG} {
 			runtime.GOMAXPROCS(1 + rng.Intn(runtime.NumCPU()))
-			kp := kps[round%2]
+			kp := hx.FreshKey1024(round % 2) // a freshly loaded key object: lazily initialised state inside it is raced for as well
 			cred, _ := newCredential(kp, rng) // first-time cache preparation races with the provers
 			var wg sync.WaitGroup
 			seeds := make([]int64, G)
@@ -261,6 +260,18 @@ func runReuse(kp hx.KeyPair, s rSeq, rng *mrand.Rand, res *hx.Result) {
 			p.nb = db.VerifNonrevBuilder()
 			_, rnd := p.nb.VerifState()
 			p.ids["alpha"] = rnd.Go()
+			// every randomiser and blinding secret of the non-revocation commitment (alpha's is the one above)
+			rz, sec := p.nb.VerifCommit().VerifRandomizers()
+			for name, x := range rz {
+				if name != "alpha" && x != nil {
+					p.ids["nr."+name] = x.Go()
+				}
+			}
+			for _, name := range []string{"epsilon", "zeta"} { // r2, r3: drawn per commitment
+				if x := sec[name]; x != nil {
+					p.ids["nrsecret."+name] = x.Go()
+				}
+			}
 			delete(p.ids, fmt.Sprintf("a%d", revIdx)) // by design the witness attribute's randomiser IS the alpha randomiser of the non-revocation part
 		}
 		return p
